@@ -566,6 +566,30 @@ def oracle_modules(rng, n, R):
                 if a is not None and b is not None and not close(a, b, 1e-6):
                     R.fail(f"C16:{name}.forward:option-not-passed",
                            f"module gives {float(a):.6g}, functional form with the same options {float(b):.6g}", **base)
+        # default normalisation factor for every way of constructing a normalised loss (intensities outside [0, 1])
+        def mdiff(a_, b_):
+            return max(abs(float(a_.max() - b_.min())), abs(float(b_.max() - a_.min())))
+        xs, ys = 3 * x - 1, 2 * y + 5
+        ctor = {"L1ImageLoss": (M.L1ImageLoss, lambda s_, t_, mm, nn: L.mae_loss(s_, t_, mask=mm, norm=nn)),
+                "L2ImageLoss": (M.L2ImageLoss, lambda s_, t_, mm, nn: L.mse_loss(s_, t_, mask=mm, norm=nn)),
+                "SSD": (M.SSD, lambda s_, t_, mm, nn: L.ssd_loss(s_, t_, mask=mm, norm=nn)),
+                "HuberImageLoss": (M.HuberImageLoss, lambda s_, t_, mm, nn: L.huber_loss(s_, t_, mask=mm, norm=nn)),
+                "SmoothL1ImageLoss": (M.SmoothL1ImageLoss, lambda s_, t_, mm, nn: L.smooth_l1_loss(s_, t_, mask=mm, norm=nn))}
+        for cname, (cls, fun) in ctor.items():
+            for tag, kw, want in (("source", dict(source=xs), mdiff(xs, xs) ** 2), ("target", dict(target=ys), mdiff(ys, ys) ** 2),
+                                  ("source+target", dict(source=xs, target=ys), mdiff(xs, ys) ** 2),
+                                  ("target,norm=True", dict(target=ys, norm=True), mdiff(ys, ys) ** 2),
+                                  ("norm=False", dict(source=xs, target=ys, norm=False), None), ("none", dict(), None)):
+                R.tick("modules")
+                try:
+                    a = cls(**kw)(xs, ys, m)
+                    b = fun(xs, ys, m, want)
+                    if not close(a, b, 1e-9):
+                        R.fail(f"C16:{cname}:default-norm",
+                               f"{cname}({tag}) gives {float(a):.6g}; with the normalisation factor max_difference^2 of the given image(s) it is {float(b):.6g}",
+                               ctor=tag, **base)
+                except Exception as e:  # noqa
+                    R.fail(f"C16:{cname}.forward:raises", f"{cname}({tag}) raises {type(e).__name__}: {str(e)[:120]}", **base)
         # default norm of NormalizedPairwiseImageLoss: max_difference(source, target)^2
         R.tick("modules")
         a = R.guard("C16:SSD.forward:raises", base, lambda: M.SSD(x, y)(x, y))
